@@ -27,7 +27,7 @@ def run(tier, seed, t0):
     os.makedirs(out, exist_ok=True)
     nrender = 1 if tier == "quick" else 4
     summ = json.loads(vlib.run_harness(["c08", rows, out, seed, nrender], timeout=3000))
-    events, mism, r = vlib.judge_trace("Trace_C08", os.path.join(out, "c08.events.ndjson"), timeout=3000)
+    events, mism, r = vlib.judge_trace("Trace_C08", os.path.join(out, "c08.events.ndjson"), timeout=3000, split=True)
     v = vlib.Verdict(PID)
     for m in mism:
         e = events[m[1] - 1]
